@@ -404,11 +404,13 @@ func checkClosures(c *Ctx) {
 						if cx.spawn == nil && orderedWith(a, obj) {
 							continue
 						}
-						if core.IsSyncType(a.Typ) || a.Atomic {
+						if a.Typ != nil && core.IsSyncType(a.Typ) || a.Atomic {
 							skip = true
 						}
-						if _, isFn := a.Typ.Underlying().(*types.Signature); isFn {
-							skip = true
+						if a.Typ != nil {
+							if _, isFn := a.Typ.Underlying().(*types.Signature); isFn {
+								skip = true
+							}
 						}
 						all = append(all, a)
 						n++
